@@ -688,6 +688,10 @@ class Interp:
         if isinstance(e.op, ast.Not):
             t = s.truth(v, e.operand)
             return Unknown("not") if t is None else (not t)
+        if isinstance(e.op, ast.Invert) and isinstance(v, Val) and v.kind == "bool":
+            r = nf.add(nf.const(1), v, -1)          # ~mask for a 0/1 indicator
+            r.kind = "bool"
+            return r
         raise Undecided("unary op")
 
     def ev_BoolOp(s, e, env):
